@@ -100,12 +100,11 @@ class LinearFilter:
         # roll coordinate axis to front
         _X = np.rollaxis(_X, axis)
         # convert coordinates to FWHM units
-        if self.fwhm != 1.0:
-            f = fwhm2sigma(self.fwhm)
-            if f.shape == ():
-                f = np.ones(len(self.bshape)) * f
-            for i in range(len(self.bshape)):
-                _X[i] /= f[i]
+        f = fwhm2sigma(self.fwhm)
+        if f.shape == ():
+            f = np.ones(len(self.bshape)) * f
+        for i in range(len(self.bshape)):
+            _X[i] /= f[i]
         # whiten?
         if self.cov is not None:
             _chol = npl.cholesky(self.cov)
